@@ -52,7 +52,7 @@ def main():
             dst = '/verif/seeded/%s/%s' % (prop, keep)
             os.makedirs(dst, exist_ok=True)
             for f in ('patch.diff', 'demo.py', 'notes.md'):
-                if os.path.exists(os.path.join(src, f)):
+                if os.path.exists(os.path.join(src, f)) and os.path.abspath(src) != os.path.abspath(dst):
                     shutil.copy(os.path.join(src, f), dst)
             meta = {'property': prop, 'confirmed': {'suite_with_change': out['suite_with_change'], 'demo_exit_without_change': out['demo_without'],
                                                     'demo_exit_with_change': out['demo_with']},
@@ -60,7 +60,15 @@ def main():
                     'replay_kind': out.get('replay_kind'), 'replay_failure': out.get('replay_failure'),
                     'ran': ['git apply patch.diff in a scratch worktree of /repo HEAD', 'pytest (280 tests)', 'demo.py with and without the change',
                             'VERIF_REPO=<worktree> ./check %s --tier %s' % (prop, tier)]}
-            json.dump(meta, open(os.path.join(dst, 'meta.json'), 'w'), indent=1)
+            mp = os.path.join(dst, 'meta.json')
+            if os.path.exists(mp):
+                old = json.load(open(mp))
+                if not old.get('detected_by_check') and meta['detected_by_check']:
+                    meta['history'] = 'missed when first run; caught after the check was strengthened'
+                for k in ('note', 'detected_by_other_check'):
+                    if k in old and not meta['detected_by_check']:
+                        meta[k] = old[k]
+            json.dump(meta, open(mp, 'w'), indent=1)
     finally:
         sh('git -C /repo worktree remove --force %s' % wt)
         # restore generated files from /repo
